@@ -249,9 +249,22 @@ theorem toDigits_head (n : Nat) : ∃ c r, Nat.toDigits 10 n = c :: r ∧ (c = '
       have := h0 hc
       omega
 
-theorem natRepr_eq (n : Nat) : natRepr n = Nat.toDigits 10 n := by
-  unfold natRepr
-  rw [Nat.toString_eq_repr, Nat.toList_repr]
+theorem digitChar_eq (d : Nat) (h : d < 10) : digitChar d = Nat.digitChar d := by
+  have : ∀ d : Fin 10, digitChar d.val = Nat.digitChar d.val := by decide
+  exact this ⟨d, h⟩
+
+theorem natDigitsAux_eq (f : Nat) : ∀ n, n < f → natDigitsAux f n = Nat.toDigits 10 n := by
+  induction f with
+  | zero => intro n h; omega
+  | succ f ih =>
+    intro n h
+    rw [natDigitsAux, Nat.toDigits_eq_if (by decide : 1 < 10)]
+    split
+    · rename_i hlt; rw [digitChar_eq n hlt]
+    · rw [ih (n / 10) (by omega), digitChar_eq (n % 10) (by omega)]
+
+theorem natRepr_eq (n : Nat) : natRepr n = Nat.toDigits 10 n :=
+  natDigitsAux_eq (n + 1) n (by omega)
 
 theorem natOfDigits_eq (ds : Str) : natOfDigits ds = Nat.ofDigitChars 10 ds 0 := by
   unfold natOfDigits Nat.ofDigitChars digitVal
